@@ -583,6 +583,65 @@ func ruleC06FinalPattern(c *Checker) {
 		}
 		c.check(found, R, p.FuncName(fn), "applies a package-level pattern", p.Pos(fn.Pos()), "pattern found", "no package-level regular expression is applied here any more: the rule cannot analyse how a final registry source is split")
 	}
+	// sibling agreement: the sniffing function rebuilds the address from the
+	// same groups of the match as the parser does
+	groupsOf := func(fn *ssa.Function) map[string]string {
+		out := map[string]string{}
+		for _, ci := range callsIn(fn) {
+			g := ci.Common().StaticCallee()
+			if g == nil || !p.InModule(g) || len(ci.Common().Args) != 1 {
+				continue
+			}
+			idx := map[int64]bool{}
+			for v := range p.backSlice(ci.Common().Args[0], 0) {
+				ia, ok := v.(*ssa.IndexAddr)
+				if !ok {
+					continue
+				}
+				if k, isC := constInt(ia.Index); isC {
+					idx[k] = true
+				}
+			}
+			if len(idx) == 0 {
+				// the groups are taken in a shared helper: which result of which helper
+				var hs []string
+				for v := range p.backSlice(ci.Common().Args[0], 0) {
+					ex, ok := v.(*ssa.Extract)
+					if !ok {
+						continue
+					}
+					if hc, ok := ex.Tuple.(*ssa.Call); ok && hc.Common().StaticCallee() != nil && p.InModule(hc.Common().StaticCallee()) {
+						hs = append(hs, fmt.Sprintf("%s#%d", hc.Common().StaticCallee().Name(), ex.Index))
+					}
+				}
+				if len(hs) > 0 {
+					sort.Strings(hs)
+					out[g.Name()] = "results " + strings.Join(hs, ",")
+				}
+				continue
+			}
+			var ks []int
+			for k := range idx {
+				ks = append(ks, int(k))
+			}
+			sort.Ints(ks)
+			out[g.Name()] = fmt.Sprint(ks)
+		}
+		return out
+	}
+	if len(users) == 2 {
+		pg, sg := groupsOf(users[0]), groupsOf(users[1])
+		for callee, set := range sg {
+			ok := false
+			for _, ps := range pg {
+				if ps == set {
+					ok = true
+				}
+			}
+			c.check(ok, R, p.FuncName(users[1]), "address rebuilt from the parser's groups", p.Pos(users[1].Pos()), "groups "+set+" handed to "+callee+", as in the parser", fmt.Sprintf("the sniffing function hands %s an address made of the match groups %s; the parser makes its arguments of %v: the two classify an address with a sub-path differently, so a remote address whose sub-path contains an \"@\" is sent to the registry parser (or a final registry source is not recognised)", callee, set, pg))
+		}
+		c.check(len(sg) > 0, R, p.FuncName(users[1]), "match groups reach the classifier", p.Pos(users[1].Pos()), "yes", "no group of the match reaches a module function in the sniffing function")
+	}
 	if len(pat) != 1 {
 		c.fail(R, p.FuncName(parse), "one pattern", p.Pos(parse.Pos()), fmt.Sprintf("%d different patterns are applied to final registry sources: the sniffing function and the parser can disagree", len(pat)))
 		return
